@@ -39,6 +39,7 @@ type op struct {
 	ETagOf string `json:"etag_of,omitempty"` // current, stale, foreign, quoted, missing
 	MpSize string `json:"mp_size,omitempty"` // complete: x-amz-mp-object-size is sent and is right, zero, wrong (one more) or neg
 	// partcopy
+	SrcVer int   `json:"src_version,omitempty"` // 0: the unversioned source object; 1: an older version of a key in a bucket that keeps versions, by id; 2: its current version, by id; 3: a version id that key does not have
 	Src   int    `json:"src,omitempty"` // source object slot
 	Range string `json:"range,omitempty"`
 	// list params
@@ -103,7 +104,7 @@ func getWorld(c caseA) (*world, string, error) {
 		if err != nil {
 			return nil, "", err
 		}
-		eng, err := gw.StartInProc(gw.Config{SB: sb, Sidecar: c.Sidecar, NoOTmp: c.NoOTmp})
+		eng, err := gw.StartInProc(gw.Config{SB: sb, Sidecar: c.Sidecar, NoOTmp: c.NoOTmp, Versioning: true})
 		if err != nil {
 			return nil, "", err
 		}
@@ -139,6 +140,7 @@ func execA(c caseA) (st stats, err error) {
 	objs := map[int]*object{}
 	srcObj := &object{Data: func() []byte { return body(4242, 6<<20) }, Len: 6 << 20}
 	srcPut := false
+	var verIDs []string // versions of the source key in the second, versioned bucket (made on demand)
 	path := func(k int) string { return "/" + b + "/" + keyNames[k%len(keyNames)] }
 	open := func() []*upload {
 		var o []*upload
@@ -244,6 +246,35 @@ func execA(c caseA) (st stats, err error) {
 					srcPut = true
 				}
 				h := []s3c.KV{{K: "x-amz-copy-source", V: b + "/copysrc"}}
+				srcData := srcObj.Data
+				if o.SrcVer > 0 {
+					// the source is a version of a key in a second bucket, which keeps versions: two of them, each 6 MiB
+					if verIDs == nil {
+						vb := b + "-v"
+						if pr := cl.MustCall("PUT", "/"+vb, nil, nil, nil); !pr.OK() {
+							return st, fmt.Errorf("SETUP: versioned source bucket: %v", pr)
+						}
+						defer func() {
+							os.RemoveAll(w.sb.Root + "/" + vb)
+							os.RemoveAll(w.sb.Ver + "/" + vb)
+							os.RemoveAll(w.sb.Sidecar + "/" + vb)
+						}()
+						if pr := cl.MustCall("PUT", "/"+vb, s3c.Q("versioning", ""), nil, []byte("<VersioningConfiguration><Status>Enabled</Status></VersioningConfiguration>")); !pr.OK() {
+							return st, fmt.Errorf("SETUP: versioning: %v", pr)
+						}
+						for _, sd := range []uint64{5151, 6161} {
+							pr := cl.MustCall("PUT", "/"+vb+"/vsrc", nil, nil, body(sd, 6<<20))
+							if !pr.OK() || pr.Header.Get("x-amz-version-id") == "" {
+								return st, fmt.Errorf("SETUP: versioned source: %v", pr)
+							}
+							verIDs = append(verIDs, pr.Header.Get("x-amz-version-id"))
+						}
+					}
+					vid := map[int]string{1: verIDs[0], 2: verIDs[1], 3: "01JUNKNOWNVERSION0000000000"}[o.SrcVer]
+					h = []s3c.KV{{K: "x-amz-copy-source", V: b + "-v/vsrc?versionId=" + vid}}
+					sd := map[int]uint64{1: 5151, 2: 6161, 3: 0}[o.SrcVer]
+					srcData = func() []byte { return body(sd, 6<<20) }
+				}
 				if o.Range != "" {
 					h = append(h, s3c.KV{K: "x-amz-copy-source-range", V: o.Range})
 				}
@@ -252,7 +283,10 @@ func execA(c caseA) (st stats, err error) {
 				if r != nil && r.OK() && !ok {
 					return st, fmt.Errorf("%s: UploadPartCopy with source range %q on a %d byte object was accepted", where, o.Range, srcObj.Len)
 				}
-				data = func() []byte { return srcObj.Data()[lo : hi+1] }
+				if r != nil && r.OK() && o.SrcVer == 3 {
+					return st, fmt.Errorf("%s: UploadPartCopy from a version id the source key does not have was accepted (%d)", where, r.Status)
+				}
+				data = func() []byte { return srcData()[lo : hi+1] }
 			}
 			if err != nil {
 				return st, fmt.Errorf("SETUP: transport: %v", err)
@@ -686,6 +720,7 @@ func opGen() *rapid.Generator[op] {
 			o.Size = rapid.SampledFrom([]int{minPart, minPart, minPart + 1, minPart - 1, 0, 1, 100, 70001}).Draw(t, "size")
 			o.Seed = rapid.Uint64Range(1, 1000).Draw(t, "seed")
 			if o.Kind == "partcopy" {
+				o.SrcVer = rapid.SampledFrom([]int{0, 0, 1, 1, 2, 3}).Draw(t, "src_version")
 				o.Range = rapid.SampledFrom([]string{"", "bytes=0-5242879", "bytes=0-5242879", "bytes=10-5242889", "bytes=1-1", "bytes=0-0", "bytes=100-", "bytes=5-2", "bytes=0-6291456", "bytes=6291455-6291455", "bytes=6291456-6291457", "garbage", "bytes=-5", "bytes=0-99,200-299"}).Draw(t, "range")
 			}
 		case "put":
